@@ -2,7 +2,7 @@
 #include "fmodel.h"
 #include <cmath>
 
-enum { CF_SKIN = 1, CF_COLORS = 2, CF_DUPNAME = 4, CF_SYMGEOM = 8, CF_FOURBONES = 16, CF_TWOPARTS = 32, CF_WHITEALPHA = 64 };
+enum { CF_SKIN = 1, CF_COLORS = 2, CF_DUPNAME = 4, CF_SYMGEOM = 8, CF_FOURBONES = 16, CF_TWOPARTS = 32, CF_WHITEALPHA = 64, CF_SEGMENTED = 128, CF_TRIPLENAME = 256 };
 
 struct ShapeInfo {
 	std::vector<Vector3> verts;
@@ -159,6 +159,28 @@ static void build(NifFile& nif, int dir, int feat) {
 		if (auto sh = nif.GetShader(shape)) {
 			sh->SetVertexColors(true);
 			sh->SetVertexAlpha(true);
+		}
+	}
+	if ((feat & CF_SEGMENTED) && dir == 0) {
+		// LE: turn the NiTriShape into a BSSegmentedTriShape with two segments (same geometry data)
+		if (auto tri = dynamic_cast<NiTriShape*>(shape)) {
+			auto seg = std::make_unique<BSSegmentedTriShape>();
+			*static_cast<NiTriShape*>(seg.get()) = *tri;
+			std::vector<BSGeometrySegmentData> sd(2);
+			sd[0].index = 0;
+			sd[0].numTris = 1;
+			sd[1].index = 3;
+			sd[1].numTris = 1;
+			seg->SetSegments(sd);
+			nif.GetHeader().ReplaceBlock(nif.GetBlockID(shape), std::move(seg));
+		}
+	}
+	if (feat & CF_TRIPLENAME) {
+		for (int k = 0; k < 2; k++) {
+			std::vector<Vector3> v2 = {Vector3(2.1f + k, 0, 0), Vector3(3, 0.3f, k), Vector3(2, 1.1f, 0)};
+			std::vector<Triangle> t2 = {Triangle(0, 1, 2)};
+			std::vector<Vector2> u2 = {Vector2(0.2f, 0), Vector2(1, 0.1f), Vector2(0, 0.9f)};
+			nif.CreateShapeFromData("Shape", &v2, &t2, &u2, nullptr);
 		}
 	}
 	if (feat & CF_DUPNAME) {
